@@ -104,6 +104,32 @@ def judge_errors(c, case):
         raise Violation("out_of_order_returned:" + kind, case, observed=repr(out)[:100], expected="ValueError")
 
 
+def judge_errors_related(c, a, b, case):
+    """Out-of-order requests issued directly after a related valid request (where memoisation would bite)."""
+    a5 = _a5()
+    res = refids.res_of(c)
+
+    def must_raise(kind, fn, *args):
+        try:
+            out = fn(*args)
+        except ValueError:
+            return
+        except Exception as e:  # noqa: BLE001
+            raise Violation("out_of_order_wrong_exception:" + kind, case, observed=f"{type(e).__name__}: {e}", expected="ValueError")
+        raise Violation("out_of_order_returned:" + kind, case, observed=repr(out)[:100], expected="ValueError",
+                        note=f"{fn.__name__}{tuple(hex(x) if isinstance(x, int) and x > 64 else x for x in args)} right after a valid related request")
+    if a >= 1:
+        for x in range(max(-1, a - 3), a):            # ancestors of the parent, asked for the parent's resolution
+            p = a5.cell_to_parent(c, a)                # the valid request
+            anc = refids.parent(p, x)
+            must_raise("parent_of_ancestor_at_finer_res", a5.cell_to_parent, anc, a)
+    if b > res:
+        kids = a5.cell_to_children(c, b)              # the valid request
+        for k in (kids[0], kids[len(kids) // 2], kids[-1]):
+            a5.cell_to_children(c, b)
+            must_raise("children_of_descendant_at_coarser_res", a5.cell_to_children, k, res)
+
+
 def judge(case, col, enumerated=False):
     a5 = _a5()
     c = int(case["cell"], 16)
@@ -111,6 +137,8 @@ def judge(case, col, enumerated=False):
     res = refids.res_of(c)
     judge_children(c, b, case)
     judge_parent(c, a, case)
+    if case.get("errors", True):
+        judge_errors_related(c, a, b, case)
     if case.get("defaults"):
         if res < 29 and a5.cell_to_children(c) != a5.cell_to_children(c, res + 1):
             raise Violation("default_children", case, observed="differs", expected="res+1")
